@@ -17,8 +17,8 @@ use crate::host;
 pub struct C13P;
 pub static C13: C13P = C13P;
 
-const MOD_NAMES: [&str; 3] = ["a", "b", "c"];
-const FN_NAMES: [&str; 3] = ["f", "g", "h"];
+const MOD_NAMES: [&str; 3] = ["a", "b", "pkgs"];
+const FN_NAMES: [&str; 3] = ["f", "g", "pkg_h"];
 const CONST_NAMES: [&str; 2] = ["K", "L"];
 
 #[derive(Clone, Debug)]
@@ -225,6 +225,54 @@ fn decode(ctl: &[u8]) -> Tree {
             if !mods[m].imports.iter().any(|q| q.last() == Some(&alias)) {
                 mods[m].imports.push(p);
             }
+        }
+    }
+    // chains of imports in one scope, each importing through the alias of another one, in random order:
+    // `import c.f; import b.c; import pkg.a.b;` for the item pkg.a.b.c.f
+    for m in 0..mods.len() {
+        if !c.chance(50) {
+            continue;
+        }
+        let depth_path = |t: usize| -> Vec<usize> {
+            let mut v = vec![t];
+            let mut cur = t;
+            while let Some(p) = mods[cur].parent {
+                v.push(p);
+                cur = p;
+            }
+            v.reverse();
+            v
+        };
+        let deep: Vec<usize> = (0..mods.len()).filter(|t| depth_path(*t).len() >= 3 && (!mods[*t].fns.is_empty() || !mods[*t].consts.is_empty())).collect();
+        if deep.is_empty() {
+            continue;
+        }
+        let tm = deep[c.below(deep.len())];
+        let tp = depth_path(tm);
+        let item: String = mods[tm].fns.keys().chain(mods[tm].consts.keys()).next().unwrap().clone();
+        let mut chain: Vec<Vec<String>> = Vec::new();
+        // pkg.<m1> ... then <m_i>.<m_i+1> ... then <m_last>.<item>
+        let keep = 1 + c.below(tp.len() - 1);
+        let mut first: Vec<String> = vec!["pkg".into()];
+        for t in &tp[1..=keep] {
+            first.push(mods[*t].name.clone());
+        }
+        chain.push(first);
+        for w in keep..tp.len() - 1 {
+            chain.push(vec![mods[tp[w]].name.clone(), mods[tp[w + 1]].name.clone()]);
+        }
+        chain.push(vec![mods[*tp.last().unwrap()].name.clone(), item]);
+        for p in chain {
+            let alias = p.last().unwrap().clone();
+            if !mods[m].imports.iter().any(|q| q.last() == Some(&alias)) {
+                mods[m].imports.push(p);
+            }
+        }
+        // random order of all imports of this module
+        let n = mods[m].imports.len();
+        for i in (1..n).rev() {
+            let j = c.below(i + 1);
+            mods[m].imports.swap(i, j);
         }
     }
     let n_probes = 1 + c.below(4);
@@ -707,7 +755,7 @@ impl Prop for C13P {
         "C13"
     }
     fn rule(&self) -> String {
-        "module trees (depth <= 3, <= 3 children per module, module names from {a,b,c}) whose modules declare functions {f,g,h} and constants {K,L} from shared name pools with unique tags, module-level imports, and 1-4 probe functions each containing one reference: bare name, relative path, absolute pkg path, 1-3 leading supers, import of an item or of a whole module inside the function body or a nested block (before or after the use), local let shadowing a constant; the tree is compiled from FileSpec in memory and from a temp directory (pkg.roto, name.roto, name/mod.roto). Oracle: an independent resolver implementing the stated lookup rules predicts the tag each probe returns, or that compilation fails with a type error; both layouts agree; every declared function is retrievable by get_function(\"<module path>.<fn>\"). Non-trivial: the referenced name exists in >= 2 modules, or the path uses super, or resolution goes through an import, or the reference is unreachable; distinct by tree text".into()
+        "module trees (depth <= 3, <= 3 children per module, module names from {a,b,pkgs}) whose modules declare functions {f,g,pkg_h} and constants {K,L} from shared name pools with unique tags, module-level imports (also chains of imports that go through each other's aliases, in random order), and 1-4 probe functions each containing one reference: bare name, relative path, absolute pkg path, 1-3 leading supers, import of an item or of a whole module inside the function body or a nested block (before or after the use), local let shadowing a constant; the tree is compiled from FileSpec in memory and from a temp directory (pkg.roto, name.roto, name/mod.roto). Oracle: an independent resolver implementing the stated lookup rules predicts the tag each probe returns, or that compilation fails with a type error; both layouts agree; every declared function is retrievable by get_function(\"<module path>.<fn>\"). Non-trivial: the referenced name exists in >= 2 modules, or the path uses super, or resolution goes through an import, or the reference is unreachable; distinct by tree text".into()
     }
     fn assumptions(&self) -> Vec<String> {
         vec!["tree size bounded as stated; import aliases are distinct within a scope".into(), "locals only use constant names, so a local never shadows a module or function".into()]
